@@ -42,7 +42,7 @@ def restore():
     fc.os = os
 
 
-def record(history, fail=None):
+def record(history, fail=None, fresh_root=False):
     """Run the history on the real store over memfs; return the kernel-level trace with begin/ack markers.
 
     fail = n: the n-th fsync call of the history (file or directory, counted from 0) fails with EIO and makes nothing
@@ -56,7 +56,8 @@ def record(history, fail=None):
             if n == fail:
                 raise OSError(errno.EIO, 'Input/output error')
     fs = MemFS(hook=hook if fail is not None else None)
-    fs.mkdirs(ROOT)
+    if not fresh_root:
+        fs.mkdirs(ROOT)
     _patch(fs)
     st = KeyValueStorage(ROOT)
     try:
@@ -76,9 +77,11 @@ def record(history, fail=None):
     return [op for op in fs.log if op[0] in ('begin', 'ack', 'fail', 'mkdir', 'create', 'trunc', 'write', 'fsync', 'fsync_dir', 'close')]
 
 
-def images(prefix, initial=None):
+def images(prefix, initial=None, base=ROOT):
     """All crash images (dict path -> bytes of visible files) after the trace prefix.  initial: files (path -> bytes)
-    that were durable, with their directories, before the trace."""
+    that were durable, with their directories, before the trace.  base: the deepest directory that exists durably before
+    the trace (the store root; '/' when the store root itself is created by the first set)."""
+    ROOT = base                         # (shadows the module constant inside this function only)
     dur_entries = {ROOT}
     pend_entries = []                   # paths (dirs or files) whose directory entry is not durable yet
     is_dir = {ROOT: True}
@@ -165,11 +168,12 @@ def images(prefix, initial=None):
     return out
 
 
-def recover(img, dirs, keys=None):
+def recover(img, dirs, keys=None, make_root=True):
     """Fresh store on the image; read every key -> {key: ('ok', canonical) | ('exc', name)}."""
     keys = KEYS if keys is None else keys
     fs = MemFS()
-    fs.mkdirs(ROOT)
+    if make_root:
+        fs.mkdirs(ROOT)
     for d in dirs:
         fs.mkdirs(d)
     for p, data in img.items():
@@ -198,11 +202,15 @@ def count_fsyncs(history):
     return sum(1 for op in record(history) if op[0] in ('fsync', 'fsync_dir'))
 
 
-def check_history(history, fail=None):
-    """-> dict(counts..., violations)."""
+def check_history(history, fail=None, fresh_root=False):
+    """-> dict(counts..., violations).  fresh_root: the store root directory does not exist before the history (the first
+    set creates it); only its parent exists durably."""
     out = {'images': 0, 'nontrivial': set(), 'prefixes': 0, 'violations': [], 'recoveries': 0, 'outcomes': set()}
-    trace = record(history, fail)
+    trace = record(history, fail, fresh_root)
     hist_s = ' ; '.join('set("%s",%s)' % (k, VNAMES[vi]) for k, vi in history)
+    if fresh_root:
+        hist_s = '[store root created by the first set] ' + hist_s
+        out['fresh_root_runs'] = 1
     if fail is not None:
         hist_s += ' [fsync call #%d of the history fails with EIO]' % fail
         out['fsync_fault_runs'] = 1
@@ -226,12 +234,12 @@ def check_history(history, fail=None):
         if cut > 0 and trace[cut - 1][0] in ('begin', 'fail'):
             continue                    # same file-system state as the previous prefix
         out['prefixes'] += 1
-        imgs = images(prefix)
+        imgs = images(prefix, base='/' if fresh_root else ROOT)
         for img, dirs in imgs:
             out['images'] += 1
-            res = recover(img, dirs)
+            res = recover(img, dirs, make_root=not fresh_root)
             out['recoveries'] += 1
-            sig = hash((tuple(sorted(img.items())), tuple(dirs))) & 0xffffffffffff
+            sig = hash((tuple(sorted(img.items())), tuple(dirs), fresh_root)) & 0xffffffffffff
             out['nontrivial'].add(sig)
             out['outcomes'].add(hash(tuple(sorted(res.items()))) & 0xffffffff)
             for k in KEYS:
@@ -257,7 +265,7 @@ def check_history(history, fail=None):
                 obs = 'key "%s" reads %s' % (k, _showres(r))
                 out['violations'].append(dict(
                     key='%s | crash %s | %s' % (hist_s, at, cls), observed=obs, expected=exp, group=cls,
-                    case={'history': [list(h) for h in history], 'cut': cut, 'fail': fail,
+                    case={'history': [list(h) for h in history], 'cut': cut, 'fail': fail, 'fresh_root': fresh_root,
                           'trace': [_opname(o) for o in trace],
                           'image': {p: (d[:24].decode('latin1') + ('...' if len(d) > 24 else '')) + ' (%d bytes)' % len(d)
                                     for p, d in img.items()}, 'dirs': dirs},
@@ -561,8 +569,8 @@ def run(cfg):
 
     def work(chunk):
         t = {}
-        for h, fail in chunk:
-            runner.merge_counts(t, check_history(h, fail))
+        for h, fail, *fr in chunk:
+            runner.merge_counts(t, check_history(h, fail, bool(fr and fr[0])))
         return t
 
     # environment deviation, bound 1: any single fsync call of the history fails (EIO) and syncs nothing
@@ -570,6 +578,13 @@ def run(cfg):
     for h in hs:
         if len(h) <= cfg.pick(2, 3):
             jobs.extend((h, i) for i in range(count_fsyncs(h)))
+    # the store root does not exist before the first set (its parent does): histories of <= 2 sets, and each of their fsync
+    # calls failing in turn
+    for h in hs:
+        if len(h) <= 2:
+            jobs.append((h, None, True))
+            if len(h) == 1:
+                jobs.extend((h, i, True) for i in range(sum(1 for op in record(h, None, True) if op[0] in ('fsync', 'fsync_dir'))))
     total = {}
     for part in runner.pmap(work, jobs, cfg):
         runner.merge_counts(total, part)
@@ -629,6 +644,7 @@ def run(cfg):
         'two_epoch_histories (process killed inside a set at every trace position, new process: [get,] set same/other value, '
         'power loss at every position)': total.get('two_epoch_histories', 0),
         'runs_with_one_failing_fsync (every fsync call of every history, one at a time)': total.get('fsync_fault_runs', 0),
+        'runs_with_a_store_root_created_by_the_first_set': total.get('fresh_root_runs', 0),
         'trace_prefixes': total.get('prefixes', 0),
         'crash_images': total.get('images', 0),
         'distinct_recovery_outcomes': len(total.get('outcomes', ())),
@@ -639,7 +655,7 @@ def run(cfg):
         'POSIX-style persistence model as stated in the module docstring (a model of the standard, not of one kernel)',
         'memfs places the real io.BufferedWriter on top of a raw in-memory file, so buffering is the real one; the '
         'resulting operation sequence is compared with strace of the same history on a real directory',
-        'the store root directory exists durably before the history',
+        'the store root directory exists durably before the history, or (fresh-root runs) its parent does and the first set creates it',
         'kill-at-boundary runs keep the page cache: they only show that no other key is harmed and the store opens',
         'concurrent part: thread switches only at scheduling points (lock, submit, task start, future wait, file-system '
         'calls, unlocked accesses to the shared fields of the cache), as in C18',
@@ -659,9 +675,11 @@ def replay(cfg, path):
     if 'kill_at' in case:
         print(kill_runs(hist))
         return 0
-    trace = record(hist, case.get('fail'))
+    fr = bool(case.get('fresh_root'))
+    trace = record(hist, case.get('fail'), fr)
     for i, op in enumerate(trace):
         print('%2d %s%s' % (i + 1, _opname(op), '   <-- crash after this' if i + 1 == case['cut'] else ''))
-    for img, dirs in images(trace[:case['cut']]):
-        print({p: len(d) for p, d in img.items()}, dirs, '->', {k: _showres(v) for k, v in recover(img, dirs).items()})
+    for img, dirs in images(trace[:case['cut']], base='/' if fr else ROOT):
+        print({p: len(d) for p, d in img.items()}, dirs, '->',
+              {k: _showres(v) for k, v in recover(img, dirs, make_root=not fr).items()})
     return 0
